@@ -21,7 +21,9 @@ CHECKS = {
             'Trusted: the ~60-line naive fixpoint reference, itself audited on every size<=1 '
             'case against an explicit product construction, witness lassos evaluated by literal '
             'path semantics, and a complete bounded lasso sweep. Bounds: n<=3 (4 for SCC-based '
-            'operators), formula size<=3.', TECH, '7/C01'),
+            'operators), formula size<=3; chains and rings of 1500-9000 states with closed-form answers. '
+            'Finding D16 (an atom named true/false is read as the constant) is listed in known_findings.json '
+            'and matched by input and answer.', TECH, '7/C01'),
     'C02': ('All labelled structures with <=2 states x all LTL formulas A g with g of size<=1, '
             'iso-representatives x all 4224 size-2 path formulas, a 3-ary and/or family, 3-state '
             'structures over one atom, and blocks (thorough: all) of the 20048 size-3 formulas: '
@@ -45,7 +47,9 @@ CHECKS = {
             'modelcheck functions must succeed exactly on members of the language (documented '
             'grammars transcribed in mc/members.py) and raise TypeError otherwise.',
             'Trusted: membership predicates and a structural reader that uses class names and child '
-            'lists only. Only documented arities are generated.', TECH, '7/C08'),
+            'lists only. Only documented arities are generated. Finding D17 (an atom spelled like an '
+            'out-of-logic subformula hides it from the lazy type check of LTL.modelcheck) is listed in '
+            'known_findings.json and matched by input.', TECH, '7/C08'),
     'C09': ('All formulas of size<=2 per logic, 3-ary and/or families, same-operator nestings, negation '
             'towers, a 33-name lexer-hostile atom menu and blocks of size 3: Parser()(str(f)) must have '
             'exactly the tree of f with every node in the logic (CTL printed in CTL* notation), and the '
@@ -162,7 +166,7 @@ CHECKS.update({
             'printed formulas. Well-formed queries only, so TypeError is a violation too.', TECH_HIST, '7/C19'),
 })
 
-ADDENDUM = (' Beyond the core scope the quick tier also enumerates the input dimensions that five waves of '
+ADDENDUM = (' Beyond the core scope the quick tier also enumerates the input dimensions that six waves of '
             'independently seeded changes attacked (DESIGN.md section 17): n-ary and/or, negation-rich and '
             'deeply nested formulas, 4-7 state structures, unusual state / node / atom types and names, '
             'aliasing of caller-owned objects, duplicates, and query-edit-query call histories.')
